@@ -129,6 +129,7 @@ def sha1Str (chunks : Array String) : String :=
 def step (ws : List String) : String :=
   match ws with
   | ["tools.xor", a, b] => "ok " ++ hexL (xor (bytesArg a) (bytesArg b))
+  | ["tools.xor_be", a, b] => "ok " ++ hexL (xorBigEndian (bytesArg a) (bytesArg b))
   | ["tools.odd_parity", n] => s!"okstr {oddParity n.toNat!}"
   | ["tools.adjust_key_parity", k] => "ok " ++ hexL (adjustKeyParity (bytesArg k))
   | ["tools.kcv", k, n] => showR (keyCheckDigits (bytesArg k) n.toNat!)
